@@ -49,7 +49,7 @@ class Obligation:
     engine: str  # "X" | "S"
     fn: Callable | None = None  # X: harness function; S: unused
     pre: Callable | None = None  # X: precondition over the same argument names
-    shards: Callable[[], list[tuple[str, Callable | None]]] | None = None  # -> [(label, extra_pre)]
+    shards: Callable[[], list[tuple]] | None = None  # -> [(label, extra_pre[, cases])]; cases = list of dicts of selector args bound concretely by the driver
     timeout: int = 120  # CPU seconds per shard (per-condition timeout)
     path_timeout: float = 30.0
     drives: list = field(default_factory=list)  # real functions symbolically executed
